@@ -34,6 +34,13 @@ pub fn bitset_with_capacity_stub(bits: usize) -> FixedBitSet {
     b
 }
 
+/// `HashMap::new()` (v5 topic-alias table) seeds SipHash from the OS (`getrandom` syscall, FFI).
+/// The alias table stays empty in these harnesses (inbound publishes carry no alias), so the keys
+/// are never used; any fixed pair will do.
+pub fn random_state_stub() -> std::hash::RandomState {
+    unsafe { core::mem::transmute::<(u64, u64), std::hash::RandomState>((0x0123_4567_89ab_cdef, 0x0fed_cba9_8765_4321)) }
+}
+
 /// proof harness with the state-machine stubs attached
 #[macro_export]
 macro_rules! sm_proof {
@@ -41,10 +48,12 @@ macro_rules! sm_proof {
         #[kani::proof]
         #[kani::unwind($unwind)]
         #[kani::stub(std::time::Instant::now, crate::sm::now_stub)]
+        #[kani::stub(std::hash::RandomState::new, crate::sm::random_state_stub)]
         #[kani::stub(fixedbitset::FixedBitSet::with_capacity, crate::sm::bitset_with_capacity_stub)]
         #[kani::stub(std::collections::VecDeque::grow, crate::util::capstub::vecdeque_never_grows)]
         #[kani::stub(std::collections::VecDeque::with_capacity, crate::util::capstub::vecdeque_with_capacity)]
         #[kani::stub(std::vec::Vec::reserve, crate::util::capstub::vec_reserve_no_growth)]
+        #[kani::stub(std::vec::Vec::with_capacity, crate::util::capstub::vec_with_capacity)]
         pub fn $name() $body
     };
 }
